@@ -14,7 +14,7 @@
    outside by the crash harness: servers in a child process, exit status, stderr,
    liveness probe and bystander connections. *)
 From Coq Require Import NArith ZArith List Bool PeanoNat.
-From V9 Require Shape.ShapeLib Shape.Params.
+From V9 Require Shape.ShapeLib Shape.PFid Shape.POrder.
 From V9 Require Import Lib.GoSem Lib.Bytes Gen.Consts Codec.Msg Codec.Unpack Codec.UnpackProofs
      Recv.Recv Recv.RecvProofs Srv.Seq Srv.SeqSpec Srv.SeqProofs Srv.Crash Srv.CrashProofs Srv.FidVis
      Ufs.DirWindow Ufs.DirProofs.
@@ -103,13 +103,13 @@ Print Assumptions C06_huge_count_refused.
 
 (* FidGet looks at creating / dead under the fid's lock before it counts a reference: the guarded FidVis model *)
 Theorem C06_handler_sees_only_set_up_fids_in_source : forall ls t' seen,
-  FidVis.run Params.fidvis_guard_of_source [] ls = Some (t', seen) -> Forall (fun e => e_setup e = true) seen.
-Proof. exact Params.handler_sees_only_set_up_fids_src. Qed.
+  FidVis.run PFid.fidvis_guard_of_source [] ls = Some (t', seen) -> Forall (fun e => e_setup e = true) seen.
+Proof. exact PFid.handler_sees_only_set_up_fids_src. Qed.
 Print Assumptions C06_handler_sees_only_set_up_fids_in_source.
 
 (* a recycled reply buffer's type is reset before the request is handed on (post-handlers of a request that
    was cancelled before it started see no stale reply), and such a request is answered and not executed *)
 Theorem C06_source_resets_recycled_reply_and_skips_cancelled :
   ShapeLib.recv_resets_reply_type = true /\ ShapeLib.cancelled_not_executed = true.
-Proof. split; [exact Params.recv_resets_reply_type_ok | exact Params.cancelled_not_executed_ok]. Qed.
+Proof. split; [exact POrder.recv_resets_reply_type_ok | exact POrder.cancelled_not_executed_ok]. Qed.
 Print Assumptions C06_source_resets_recycled_reply_and_skips_cancelled.
